@@ -1,7 +1,9 @@
 //! C04 - what a session saw is what is on the disk: remount and independent decode agree
-use super::hist::HistProp;
-use crate::gen::{GenCfg, K};
+use super::hist::{self, HistProp};
+use crate::gen::{Case, GenCfg, K};
 use crate::ops::{Aspect, RunCfg, Trace};
+use crate::run::{self, Report, Tier};
+use crate::vol::VolCfg;
 
 fn nontrivial(t: &Trace) -> bool {
     t.has("checkpoint") && (t.has("write") || t.has("rename") || t.has("remove") || t.has("truncate_shrinks"))
@@ -33,4 +35,49 @@ pub fn prop() -> HistProp {
         pressure_cases: (3000, 50000),
         assumptions: vec!["differential oracle, independent of the reference model", "documented preconditions of DESIGN 4.3"],
     }
+}
+
+pub fn run(tier: Tier, seed: u64) -> i32 {
+    let hp = prop();
+    let mut rep = Report::new(hp.id, tier, seed, hp.level, hp.rule);
+    rep.rule.push_str("; plus two files of which one allocates a cluster in a write that a storage fault hits at EVERY device call (hard error / 'interrupted') and that the caller repeats, then the other file allocates and both are written again: at the final checkpoint remount and independent decode must agree with what the session lists");
+    for a in &hp.assumptions {
+        rep.assume(a);
+    }
+    let kb = hist::known_block(&hp, &mut rep);
+    rep.add(kb);
+    rep.add(hist::regress_block(&hp));
+    if !rep.failed() {
+        let vols: Vec<VolCfg> = [1usize, 8, 12, 3].iter().map(|p| VolCfg::from_preset(*p)).collect();
+        let hp_ref = &hp;
+        let b = run::run_indexed("allocation_hit_by_a_fault_then_another_file_allocates", (vols.len() * 2) as u64, |i, blk| {
+            let vol = &vols[i as usize / 2];
+            let intr = i % 2 == 1;
+            for k in 0..80u16 {
+                let case = Case { vol: vol.clone(), ops: super::c11::alloc_fault_ops(vol.cluster_size(), k, intr) };
+                let mut out = hist::eval_case(hp_ref, &case);
+                let touched = out.classes.contains_key("cases_with_write_failed_with_injected_fault_then_retried") || out.classes.contains_key("cases_with_write_survived_injected_fault");
+                out.nontrivial = touched;
+                out.hash = run::hash_str(&format!("allocfault|{}|{}|{:?}", k, intr, vol));
+                blk.record(&out, || serde_json::json!({"vol": vol, "fault_at_device_call": k, "interrupted": intr}));
+                if let Some(m) = out.violation {
+                    return Some(run::Failure { message: format!("fault at device call {} of an allocating write, write repeated: {}", k, m), case: serde_json::to_value(&case).unwrap(), kind: "history".into() });
+                }
+                if !touched {
+                    break;
+                }
+            }
+            None
+        });
+        rep.add(b);
+    }
+    if !rep.failed() {
+        rep.add(hist::random_block(&hp, "random_histories", seed, tier.pick(hp.quick_cases, hp.thorough_cases)));
+    }
+    if !rep.failed() {
+        if let Some(b) = hist::pressure_block(&hp, seed, tier) {
+            rep.add(b);
+        }
+    }
+    rep.finish()
 }
